@@ -10,6 +10,7 @@
 import Nlmodel.Proofs.Lemmas.EmitSize
 import Nlmodel.Model.Pipeline
 import Nlmodel.Proofs.Lemmas.SimCtlProg
+import Nlmodel.Proofs.Lemmas.SimFnAll
 namespace Nl
 namespace C11
 open Spec
@@ -155,6 +156,21 @@ def machineError (p : RBlock) (n : Nat) : Option Err :=
 theorem C11_K3_witness :
     isBoolTrue (specLast (evalB 20 k3prog {})) = true ∧ machineError k3prog 13 = some .type := by
   constructor <;> decide
+
+/-- NO RESIDUE INSIDE FUNCTION BODIES (stage 4 of the simulation): an `als`/`zolang` expression (any
+    expression of the stage-4 fragment) evaluated in ANY activation `below ++ locs ++ ops`, with any
+    suspended callers: if the semantics gives a value, the machine is at the end of the expression's
+    code in the same frame with `ops.push v` — loops left by `stop`, iterations cut by `volgende` and
+    calls returning from inside loops by `antwoord` leave nothing behind, for any number of iterations
+    and any recursion depth (the alternative outcomes `GoalV` lists: an `antwoord` returns to the saved
+    frame, an error is the same error, or the machine stops at its stack/frame limit). -/
+theorem C11_no_residue_in_function_bodies (W : SimF.World) (hW : SimF.WOK W) (f : Nat) (nl : Nat) (fn : Bool) (Γ Γx Λ : Sim.Gam) (ab : Bool)
+    (e : RExpr) (hx : SimF.YE nl fn Γ Λ ab e)
+    (st : SState) (pos : Nat) (lp : LoopCtx) (cs : List Const) (below : Array Value) (fr : List Frame) (locs ops g : Array Value) (l : Value)
+    (hsc : SimF.Sc W fn Γ Γx Λ) (hinv : SimF.Inv W (SimF.bigScope fn Γ Γx) Λ nl st locs g l)
+    (hcode : Sim.CodeAt W.C pos (emitE e pos lp cs).1) (hpool : Sim.PoolOK W.s0.cvals (emitE e pos lp cs).2) :
+    SimF.GoalV W (SimF.bigScope fn Γ Γx) Λ nl below fr fn ab lp pos locs ops g l (pos + sizeE e) ops st (evalE f e st) :=
+  (SimF.pall hW f).e nl fn Γ Γx Λ ab e hx st pos lp cs below fr locs ops g l hsc hinv hcode hpool
 
 end C11
 end Nl
